@@ -36,6 +36,9 @@ func (e *ctxEnv) finish(c *ctxRec, desc map[string]interface{}, kind string) {
 	desc["modules"] = fmt.Sprint(c.edges)
 	desc["on_start_callbacks"] = c.nStartCB
 	desc["on_end_callbacks"] = c.nEndCB
+	desc["inject"] = fmt.Sprint(c.options().Inject)
+	desc["stdin"] = c.useStdin
+	desc["css_entry"] = c.cssEntry
 	for _, f := range fails {
 		e.st.Fail("plugin-callback-order-violated", desc, f, "on-start callbacks finish before any resolve/load; each module identity loaded once per build")
 	}
@@ -461,7 +464,52 @@ func scenDirectedOnce(seed uint64, e *ctxEnv, idx int, which string, scale int, 
 	return false
 }
 
+// one-shot api.Build with the same plugins: only the callback trace and the
+// result are checked (there is no context history)
+func scenOneShotBuild(seed uint64, e *ctxEnv, idx int) {
+	r := NewRng(seed)
+	forceEntryOptions = r.Chance(70)
+	c := newCtxRec(r, e.tmp, idx)
+	forceEntryOptions = false
+	c.failLoadPct, c.failEndPct, c.failStartPct = 0, 0, 0
+	desc := mkDesc("one-shot-build", seed)
+	desc["inject"] = fmt.Sprint(c.options().Inject)
+	desc["stdin"] = c.useStdin
+	desc["css_entry"] = c.cssEntry
+	res := api.Build(c.options())
+	_, errs := c.decodeResult(res)
+	for _, msg := range errs {
+		e.st.Fail("rebuild-result-not-one-complete-build", desc, msg, "the complete, internally consistent result of exactly one build")
+	}
+	if len(res.Errors) != 0 {
+		e.st.Fail("rebuild-result-not-one-complete-build", desc, fmt.Sprint(res.Errors), "a successful build")
+	}
+	c.mu.Lock()
+	pt := append([]pev{}, c.ptrace...)
+	fails := append([]string{}, c.fails...)
+	c.mu.Unlock()
+	for _, f := range fails {
+		e.st.Fail("plugin-callback-order-violated", desc, f, "on-start callbacks finish before any resolve/load; each module identity loaded once per build")
+	}
+	for _, f := range checkPluginTrace(pt, c.nStartCB, c.nEndCB) {
+		e.st.Fail("plugin-callback-order-violated", desc, f, "start callbacks before resolve/load, identities loaded once, end callbacks after write, in order, once")
+	}
+	if len(pt) <= 500 {
+		e.traceCase = append(e.traceCase, coqTraces(pt, c.nStartCB, c.nEndCB)...)
+	}
+	e.st.Note("build-oneshot", fmt.Sprint(seed), true)
+}
+
 func runContexts(r *Rng, e *ctxEnv, n int, tier string) {
+	// option-driven entry points into resolve/load (inject, alias, glob, stdin, CSS): one-shot builds,
+	// sequential rebuilds and concurrent rebuilds joining one build
+	for i := 0; i < 4+n/20; i++ {
+		scenOneShotBuild(r.U64(), e, 3000+i)
+	}
+	forceEntryOptions = true
+	scenDirected(r.U64(), e, 1100, "sequential-edits")
+	scenDirected(r.U64(), e, 1101, "join")
+	forceEntryOptions = false
 	// fixed corpus first: directed scenarios (including the replays of known findings)
 	for i, w := range []string{"sequential-edits", "join", "cancel", "dispose", "cancel-during-dispose", "second-dispose"} {
 		scenDirected(r.U64(), e, 1000+i, w)
